@@ -166,3 +166,20 @@ def same_outcome(a, b) -> bool:
     if a[0] == "ok":
         return same_value(a[1], b[1])
     return a[1:] == b[1:]
+
+
+def loosely_equal(a, b) -> bool:
+    """Python ==, with nan equal to nan, recursively through tuples, lists and App values."""
+    from ..sexp import App
+    try:
+        if isinstance(a, float) and a != a:
+            return isinstance(b, float) and b != b
+        if isinstance(a, (tuple, list)) and isinstance(b, (tuple, list)):
+            return (type(a) is type(b) and len(a) == len(b)
+                    and all(loosely_equal(x, y) for x, y in zip(a, b)))
+        if isinstance(a, App) and isinstance(b, App):
+            return (a.f == b.f and loosely_equal(a.args, b.args) and a.kw.keys() == b.kw.keys()
+                    and all(loosely_equal(a.kw[k], b.kw[k]) for k in a.kw))
+        return bool(a == b)
+    except Exception:
+        return False
